@@ -75,6 +75,12 @@ CHECKS.update({
   text="All forests <=3/4 nodes x 5 decorations: 100 name()/local-name()/namespace-uri()/count() expressions from every node of every kind; 106 documents with xml:lang placements over 15 tag values x 50 lang() expressions from every node.",
   note="Trusted: refxp.NodeNames/Lang.",
   ref="2 C12"),
+ "C08": dict(
+  level="exploration",
+  technique="exhaustive enumeration of all token strings up to a length bound plus grammar-derived ASTs in several renderings, against a reference recogniser/evaluator",
+  text="All token strings of length <=4 (quick) / <=5 (thorough) over a 26-token alphabet, joined with and without spaces: the reference recogniser decides expression vs. non-expression; non-expressions and XPath type errors must error, expressions must evaluate to the reference value. ~2000 generated ASTs (every triple of binary operators in both association shapes, unary minus/union vs. every operator, '*' everywhere, reserved-looking names, numeral/literal forms, nested predicates, filter paths, calls) rendered 6 ways on 3 documents against the reference evaluation of the generating tree; ~400 hand-listed lexical edge cases.",
+  note="Six open known findings, all in the generated lexer/grammar (gogll not available to regenerate): operator names reserved, '1.', '_' name start, whitespace inside QNames, Unicode spaces as whitespace, backslash escapes in literals. An error at the first Exec counts as rejection.",
+  ref="2 C08"),
 })
 
 NOT_YET = {}
